@@ -1,6 +1,7 @@
 """C02 / C05: the XML codec judged by XmlFormat.tla (documents tokenised by an independent parser)."""
 import json
 import os
+import re
 import subprocess
 import time
 
@@ -17,34 +18,46 @@ def tokenise(src, dst):
         raise ToolError("xmltok failed: " + p.stderr.decode()[-2000:])
 
 
-def string_of(ev, k, prop):
-    """diagnosis only: the string value the before-forest holds for an issue"""
-    try:
-        b = ev["before"]["inst"][k - 1]
-        if prop == "Name":
-            return bytes(b["name"])
-        for p in b["props"]:
-            if p[0] == prop or True:
-                if p[1]["t"] in ("String", "ContentId") and isinstance(p[1]["v"], list):
-                    if p[0] == prop:
-                        return bytes(p[1]["v"])
-    except Exception:
-        pass
-    return None
-
-
-def bad_float_spelling(ev, item_pos, name):
-    """diagnosis only: non-document float spellings inside a rejected type element"""
-    found = set()
-
+def _item(ev, item_pos):
     def items(n, acc):
         for k in n["kids"]:
             if k["tag"] == "Item":
                 acc.append(k)
                 items(k, acc)
         return acc
+    return items(ev["doc"]["kids"][0], [])[item_pos - 1]
+
+
+def cr_normalised_string(ev, k, prop):
+    """diagnosis only: is the document's text for (item k, element named prop) the CR/CRLF->LF normalisation
+    of a string the before-forest holds on that instance (under whatever spelling) that contains a CR?"""
     try:
-        it = items(ev["doc"]["kids"][0], [])[item_pos - 1]
+        b = ev["before"]["inst"][k - 1]
+        cands = [bytes(b["name"])] if prop == "Name" else []
+        cands += [bytes(p[1]["v"]) for p in b["props"] if p[1]["t"] in ("String", "ContentId") and isinstance(p[1]["v"], list)]
+        cands = [c for c in cands if b"\r" in c]
+        if not cands:
+            return False
+        props = [x for x in _item(ev, k)["kids"] if x["tag"] == "Properties"][0]
+        for el in props["kids"]:
+            if dict((a[0], a[1]) for a in el["attrs"]).get("name") != prop:
+                continue
+            # ContentId nests the text in a url element
+            texts = [bytes(el["text"]["raw"])] + [bytes(x["text"]["raw"]) for x in el["kids"]]
+            for c in cands:
+                if c.replace(b"\r\n", b"\n").replace(b"\r", b"\n") in texts:
+                    return True
+    except Exception:
+        pass
+    return False
+
+
+def bad_float_spelling(ev, item_pos, name):
+    """diagnosis only: non-document float spellings inside a rejected type element"""
+    found = set()
+
+    try:
+        it = _item(ev, item_pos)
         props = [k for k in it["kids"] if k["tag"] == "Properties"][0]
         for el in props["kids"]:
             if dict((a[0], a[1]) for a in el["attrs"]).get("name") != name:
@@ -68,6 +81,11 @@ C05_CLAUSES = ("wellformed", "docinv", "docmeans")
 
 def report(rep, pid, fails, clauses):
     for c in fails:
+        if c["clause"] == "judge-error":
+            rep.violation("judge-error|%s" % re.sub(r"\d+", "N", c.get("error", ""))[:80],
+                          lambda c=c: {"case": c, "event": find_event(c["part"], c["ep"])},
+                          "%s: XmlFormat.tla cannot evaluate this case (%s)" % (c["ep"], c.get("error", "")))
+            continue
         if c["clause"] not in clauses:
             continue
         issues = c.get("issues") or [[0, "", "", ""]]
@@ -76,8 +94,7 @@ def report(rep, pid, fails, clauses):
             sig = "%s|%s.%s|%s" % (c["clause"], cls, prop, what)
             if c["clause"] == "docmeans" and what in ("name", "not-stored-as-written"):
                 ev = ev or find_event(c["part"], c["ep"])
-                s = string_of(ev, k, prop)
-                if s is not None and b"\r" in s:
+                if cr_normalised_string(ev, k, prop):
                     sig = "docmeans|string-with-carriage-return"
             if c["clause"] == "docinv" and what in ("CoordinateFrame", "OptionalCoordinateFrame"):
                 ev = ev or find_event(c["part"], c["ep"])
@@ -94,13 +111,14 @@ def run(pid, tier, seed, replay=None):
     rep = Report(pid)
     build_harness()
     db = export_db()
-    env = {"DBJSON": db}
+    env = {"DBJSON": db, "CLAUSES": "roundtrip" if pid == "C02" else "doc"}
     clauses = C02_CLAUSES if pid == "C02" else C05_CLAUSES
     total = 0
     samples = []
     nontrivial = set()
     plans = [("known", seed, 250 if quick else 4000, 6), ("unknown", seed + 1, 120 if quick else 1500, 5),
-             ("noreflection", seed + 2, 120 if quick else 1500, 5), ("mixed", seed + 3, 200 if quick else 3000, 8)]
+             ("noreflection", seed + 2, 120 if quick else 1500, 5), ("mixed", seed + 3, 200 if quick else 3000, 8),
+             ("shapes", seed + 4, 60 if quick else 800, 6)]
     for mode, sd, count, maxi in plans:
         raw = os.path.join(OUT, "%s_xml_%s.ndjson" % (pid, mode))
         tok = raw + ".tok"
